@@ -884,6 +884,28 @@ deleted: the pivot table part, its own relationship to the cache and the cache p
 def deletePivotTable (g : RefG) (sheet ridS wb ridW : Str) (lastUser : Bool) : RefG :=
   let g1 := if lastUser then (g.dropRel wb ridW).dropUse wb ridW else g
   g1.dropRel sheet ridS
+
+/-- every use of id `i` inside part `p` goes away (`strings.ReplaceAll` of the entry text) -/
+def dropUses (g : RefG) (p i : Str) : RefG := { g with uses := g.uses.filter fun u => !(u.1 == p && u.2 == i) }
+
+/-- slicer.go `deleteSlicer`, in the order of the code: only when the slicer part is left without
+a slicer (`len(slicers.Slicer) == 0`) the worksheet's slicer-list entry naming the relationship
+goes, then the slicer part (`Pkg.Delete`), then the worksheet relationship
+(`deleteSheetRelationships`); otherwise the graph is unchanged (the part is rewritten) -/
+def deleteSlicer (g : RefG) (sheet ridS slicerPart : Str) (emptied : Bool) : RefG :=
+  if emptied then ((g.dropUse sheet ridS).dropPart slicerPart).dropRel sheet ridS else g
+
+/-- slicer.go `deleteSlicerCache`, in the order of the code: only when no other slicer uses the
+cache the cache part goes (`Pkg.Delete`), then the workbook relationship to it
+(`deleteWorkbookRels`), then every `<x14:slicerCache r:id>` entry with that id
+(`deleteWorkbookSlicerCache`, `strings.ReplaceAll`) -/
+def deleteSlicerCache (g : RefG) (wb ridW cachePart : Str) (lastUser : Bool) : RefG :=
+  if lastUser then ((g.dropPart cachePart).dropRel wb ridW).dropUses wb ridW else g
+
+/-- DeleteSlicer = deleteSlicer (its error dropped) then deleteSlicerCache
+(regenerated fact `deleteSlicerOrder`) -/
+def deleteSlicerAll (g : RefG) (sheet ridS slicerPart wb ridW cachePart : Str) (emptied lastUser : Bool) : RefG :=
+  (g.deleteSlicer sheet ridS slicerPart emptied).deleteSlicerCache wb ridW cachePart lastUser
 end RefG
 
 /-! ### shared strings (cell.go `setSharedString`, tail of `SetCellRichText`) -/
